@@ -142,6 +142,7 @@ class _RT(object):
         self.funcs = DEFAULT_FUNCS
         self.last_obs = None
         self.last_end = None
+        self.ext_override = None
         self.spawn = None   # set by the scheduler harness for 'par' steps
         self.pworker = None
         self.tls = threading.local()
@@ -160,10 +161,12 @@ class WrapIn(object):
     def prepare_input_for_recording(self, interception_key, result, args, kwargs):
         if RT.stack and RT.stack[-1]['step'].get('fault') == 'handler':
             raise ValueError('input handler fails by design')
+        if RT.stack and RT.stack[-1]['step'].get('hnone'):
+            return None   # a handler may legitimately have nothing to keep for a call
         return {'w': result}
 
     def restore_input_from_recording(self, recorded_data, args, kwargs):
-        return recorded_data['w']
+        return None if recorded_data is None else recorded_data['w']
 
 
 class WrapOut(object):
@@ -187,7 +190,7 @@ def _body(fname, args, kw, target):
     for act in step.get('pre', ()):
         _perform(target, act, ent['nested'])
     if RT.mode == 'replay':
-        v = Orig(fname)
+        v = mkval(step['orig_ret']) if 'orig_ret' in step else Orig(fname)   # what the real code returns when it is run after all
         ent['ret'] = v
         return v
     if step.get('intr'):
@@ -246,6 +249,7 @@ class NullRecorder(object):
 EXTRACTORS = {
     'dict': lambda: {'user_k': 1, 'user_s': 'ab'},
     'raise': None,
+    'nonstr': lambda: {'tenant': 'acme', 7: 'x', 'region': 'eu'},
     'none': lambda: None, 'int': lambda: 5, 'str': lambda: 'str', 'list': lambda: [1, 2], 'partial': lambda: [('k', 1), 7],
 }
 
@@ -256,6 +260,9 @@ def _extractor(kind):
 
     def ext(*args, **kwargs):
         RT.journal.append({'fn': '<extractor>', 'mode': RT.mode, 'args': (), 'kw': {}})
+        k2 = RT.ext_override if getattr(RT, 'ext_override', None) else kind
+        if k2 != kind:
+            return EXTRACTORS[k2]()
         if kind == 'raise':
             raise ValueError('extractor fails by design')
         if kind == 'discard':   # user code running after the operation: must find the recorder idle already
@@ -636,6 +643,21 @@ class Env(object):
         RT.funcs = self.funcs
         _CURRENT_SCRIPT[0] = self.draws
 
+    def add_subclass(self, name, base, params=None):
+        """A subclass that INHERITS the decorated operation and interceptions of `base`, with its own recording parameters."""
+        from playback.tape_recorder import RecordingParameters
+        basecls, kind = self.classes[base]
+        c = type(name, (basecls,), {})
+        c.__module__ = __name__
+        c.__qualname__ = name
+        setattr(THIS, name, c)
+        if params is not None:
+            self.tr.recording_params(RecordingParameters(
+                sampling_rate=params.get('rate', 1.0), ignore_enforced_sampling=params.get('ignore', False),
+                skipped=params.get('skipped', False), copy_data_on_intercepion=params.get('copy', False)))(c)
+        self.classes[name] = (c, kind)
+        return c
+
     def add_class(self, name, kind='inst', ext=None, params=None):
         c = build_class(self.tr, name, kind, ext, params, self.funcs)
         self.classes[name] = (c, kind)
@@ -893,8 +915,8 @@ def ref(prog, enabled=True, draw=None, save_raises=False, funcs=None):
                     discard()
                 else:
                     R['inputs'][ident] = out
-                    if out == ('v', 'UNENCODABLE'):
-                        R['unser'] = True
+                    if out == ('v', 'UNENCODABLE') and not (spec.get('handler') and step.get('hnone')):
+                        R['unser'] = True   # (a handler that keeps nothing stores None instead of the value)
             else:
                 R['results'][(spec['alias'], n)] = out
                 if out == ('v', 'UNENCODABLE'):
@@ -943,7 +965,7 @@ def ref(prog, enabled=True, draw=None, save_raises=False, funcs=None):
                 R['incomplete'] = R['op'] is None
                 R['exc_flag'] = {'ret': False, 'raise': True}[R['outcome'][0]] if R['outcome'][1:] != ('Interrupt',) else None
                 ext = prog.get('ext')
-                R['user_meta'] = {'user_k': 1, 'user_s': 'ab'} if ext in ('dict', 'discard', 'force') else {}
+                R['user_meta'] = {'user_k': 1, 'user_s': 'ab'} if ext in ('dict', 'discard', 'force') else ({'tenant': 'acme', '7': 'x', 'region': 'eu'} if ext == 'nonstr' else {})
     return R
 
 
@@ -1010,7 +1032,7 @@ def ref_replay(R, prog2, funcs=None):
                 finally:
                     cur.pop()
                 out['nested'].append(obs_canon(nested))
-                obs.append(['ret', Orig(step['fn'])])
+                obs.append(['ret', mkval(step['orig_ret']) if 'orig_ret' in step else Orig(step['fn'])])
                 return
             if 'missing' in spec:
                 m = spec['missing']
